@@ -99,7 +99,7 @@ pub fn c18() -> i32 {
             }
         }
     }
-    let mut tops: Vec<(&str, i32)> = vec![("1+1", 0), ("2+1", 0), ("1+1+1", 0), ("1+1", 1), ("1+1", 2), ("1+1", 3)];
+    let mut tops: Vec<(&str, usize)> = vec![("1+1", 0), ("2+1", 0), ("1+1+1", 0), ("1+1", 1), ("1+1", 2), ("1+1", 3)];
     if t {
         tops.extend([("2+2", 0), ("1+1+1+1", 0), ("3+1", 1), ("2+2", 3)]);
     }
